@@ -245,6 +245,17 @@ func (w *traceWriter) close() { w.w.Flush(); w.f.Close() }
 
 func seededRand() *rand.Rand { return rand.New(rand.NewSource(int64(envInt("VERIF_SEED", 1)))) }
 
+// readJSON loads a schedule file written by the checks (TLC-generated behaviours of an environment model).
+func readJSON(t *testing.T, path string, v any) {
+	b, err := os.ReadFile(path)
+	if err != nil {
+		t.Fatal(err)
+	}
+	if err := json.Unmarshal(b, v); err != nil {
+		t.Fatal(err)
+	}
+}
+
 var bubbleCount uint64
 
 func report(v Ev) {
